@@ -1,4 +1,58 @@
-(* Properties/C01.v — statements follow *)
-From GN Require Import Common.Base Model.Paths Model.Require Spec.NodeResolve.
-Theorem C01_placeholder : True. Proof. exact I. Qed.
-Print Assumptions C01_placeholder.
+(* Properties/C01.v — require(): one evaluation and one exports identity per module per runtime. *)
+From GN Require Import Common.Base Model.Paths Model.Require Proofs.RequireInv Proofs.RequireExtra.
+Open Scope Z_scope.
+
+(* For every file tree, every assignment of module programs (trees, DAGs, cycles of any length, self-requires, throws
+   at any position), every registration set, every fuel and every sequence of top-level calls (from JavaScript at any
+   directory or from Go), the state reached satisfies the cache invariant: every cached module is a file module that is
+   also cached under its own resolved path, and cache keys are unique. *)
+Theorem C01_invariant_reachable : forall fs nat_reg fuel calls, Inv (run_tops fs nat_reg fuel init_state calls).
+Proof. exact reachable_inv. Qed.
+Print Assumptions C01_invariant_reachable.
+
+(* one exports identity per file: whatever the spellings (keys) under which two modules are cached — with or without
+   extension, through a directory, with detours, absolute, via node_modules — if they belong to the same file they are
+   the identical module *)
+Theorem C01_identity : forall st k1 m1 k2 m2 p,
+  Inv st -> cached st k1 m1 -> cached st k2 m2 -> file_owner st m1 = Some p -> file_owner st m2 = Some p -> m1 = m2.
+Proof. exact one_module_per_file. Qed.
+Print Assumptions C01_identity.
+
+(* at most one evaluation while cached, and a module that is required again while it is still being evaluated (a cycle)
+   is not re-entered: the cached module comes back, nothing runs, nothing changes — so the requirer sees the exports as
+   populated so far *)
+Theorem C01_cached_not_reentered : forall fs rq st p m,
+  cache_get (files_cache st) (render p) = Some m -> load_module fs rq st p = (st, ROk m).
+Proof. exact cached_not_reentered. Qed.
+Print Assumptions C01_cached_not_reentered.
+
+(* ... and the entry of a module under evaluation is still there in every state nested requires can reach *)
+Theorem C01_in_progress_stays : forall fs nat_reg fuel st d r,
+  Inv st -> ext st (fst (require_ fs nat_reg fuel st d r)).
+Proof. intros fs nr fuel st d r HI. exact (proj2 (require_good fs nr fuel st d r HI)). Qed.
+Print Assumptions C01_in_progress_stays.
+
+(* a body that throws: the very same value passes through every un-caught require ... *)
+Theorem C01_throw_same_value : forall rq st m file r rest st1 t,
+  rq st (pdir (parse file)) r = (st1, RThrown t) ->
+  snd (run_body rq st m file (IReq r false :: rest)) = RThrown t.
+Proof. exact throw_passes_uncaught. Qed.
+Print Assumptions C01_throw_same_value.
+
+(* ... and the failed module does not stay cached under any name, so a later require evaluates the file afresh *)
+Theorem C01_failure_uncached : forall fs rq,
+  (forall st d r, Inv st -> good st (fst (rq st d r))) ->
+  forall st p, Inv st -> cache_get (files_cache st) (render p) = None ->
+  clean_failure st (fst (load_module fs rq st p)) (snd (load_module fs rq st p)).
+Proof. intros fs rq Hrq st p HI Hn. exact (proj2 (proj2 (load_module_good3 fs rq Hrq st p HI)) Hn). Qed.
+Print Assumptions C01_failure_uncached.
+
+(* non-vacuity: a <-> b cycle in which a throws after b required './a' (the history that used to leave a stale alias) *)
+Example C01_nonvacuous :
+  let fs := [([47;112;47;97;46;106;115], FJs [IBump; ISet 1 1; IReq [46;47;98] false; IThrow 7]);
+             ([47;112;47;98;46;106;115], FJs [IBump; IReq [46;47;97] false; ISet 2 2])] in
+  let nr := {| n_registry := []; n_global := []; n_core := [] |} in
+  let st := run_tops fs nr 10 init_state [(parse [47;112], [46;47;97]); (parse [47;112], [46;47;97])] in
+  Inv st /\ counters st = [([47;112;47;97;46;106;115], 2%nat); ([47;112;47;98;46;106;115], 1%nat)] /\
+  cache_get (files_cache st) [47;112;47;97] = None.
+Proof. cbv zeta. split; [apply reachable_inv|]. split; vm_compute; reflexivity. Qed.
